@@ -35,6 +35,9 @@ pub enum Place {
     RxMoved,
     /// the sender travels over one connection, the receiver over another one (the creator forwards)
     BothMoved,
+    /// the receiver travels first; the sender starts writing where it was created and, after a flush in the
+    /// middle of the stream, travels over a second connection and goes on writing there
+    TxMovedMidStream,
 }
 
 #[derive(Clone, Debug)]
@@ -44,6 +47,8 @@ pub enum WOp {
     CancelWrite(usize, u32),
     Flush,
     Pause(u64),
+    /// flush, then send the sender over the spare connection and continue there (at most once)
+    Move,
 }
 
 #[derive(Clone, Copy, Debug, PartialEq, Eq)]
@@ -69,6 +74,8 @@ pub struct WriterOut {
     pub bytes_written_api: u64,
     pub zero_len_write_nonzero: bool,
     pub cancelled_writes: u64,
+    pub moved_at: Option<usize>,
+    pub move_err: Option<String>,
 }
 
 #[derive(Clone, Debug, Default)]
@@ -102,7 +109,9 @@ async fn ship_half(tx: &mut remoc::rch::base::Sender<IoShip>, rx: &mut remoc::rc
     }
 }
 
-async fn writer(mut tx: io::Sender, data: Vec<u8>, limit: usize, ops: Vec<WOp>, end: WEnd, size: Option<usize>, outp: Arc<Mutex<WriterOut>>) {
+type Mover = (remoc::rch::base::Sender<IoShip>, remoc::rch::base::Receiver<IoShip>);
+
+async fn writer(mut tx: io::Sender, data: Vec<u8>, limit: usize, ops: Vec<WOp>, end: WEnd, size: Option<usize>, outp: Arc<Mutex<WriterOut>>, mut mover: Option<Mover>) {
     let mut off = 0usize;
     let mut failed = false;
     // the scripted calls, then plain writes of the rest up to `limit`
@@ -116,6 +125,34 @@ async fn writer(mut tx: io::Sender, data: Vec<u8>, limit: usize, ops: Vec<WOp>, 
         crate::simnet::bump_progress();
         match op {
             WOp::Pause(ms) => tokio::time::sleep(Duration::from_millis(ms)).await,
+            WOp::Move => {
+                let Some((mut mtx, mut mrx)) = mover.take() else { continue };
+                // nothing may be in flight when the sender is serialized
+                if let Err(e) = tx.flush().await {
+                    outp.lock().unwrap().write_err = Some(format!("flush: {:?} {e}", e.kind()));
+                    failed = true;
+                    break 'ops;
+                }
+                {
+                    let mut o = outp.lock().unwrap();
+                    o.flushed = o.accepted;
+                }
+                match ship_half(&mut mtx, &mut mrx, IoShip::Tx(tx)).await {
+                    Ok(IoShip::Tx(t)) => {
+                        tx = t;
+                        outp.lock().unwrap().moved_at = Some(off);
+                    }
+                    Ok(_) => unreachable!(),
+                    Err(e) => {
+                        let mut o = outp.lock().unwrap();
+                        o.move_err = Some(e);
+                        // (the sender is gone: nothing to ask)
+                        o.bytes_written_api = o.accepted as u64;
+                        o.done = true;
+                        return;
+                    }
+                }
+            }
             WOp::Flush => match tx.flush().await {
                 Ok(()) => {
                     let mut o = outp.lock().unwrap();
@@ -280,7 +317,7 @@ pub fn run_one(run: u64, seed: u64) -> RunOut {
     }
     let (cfg_a, cfg_b, cfg_c, cfg_d) = (cfgs[0].clone(), cfgs[1].clone(), cfgs[2].clone(), cfgs[3].clone());
     // (rch::bin, which carries the bytes, requires at least one half to be remote: no all-local placement)
-    let place = *rng.pick(&[Place::TxMoved, Place::TxMoved, Place::RxMoved, Place::RxMoved, Place::BothMoved]);
+    let place = *rng.pick(&[Place::TxMoved, Place::TxMoved, Place::RxMoved, Place::RxMoved, Place::BothMoved, Place::TxMovedMidStream]);
     let total = interesting_len(&mut rng, &[&cfg_a, &cfg_b]);
     let sized = rng.chance(50);
     // what the writer is going to do
@@ -322,6 +359,10 @@ pub fn run_one(run: u64, seed: u64) -> RunOut {
     if planned == 0 && rng.chance(50) {
         ops.push(WOp::Write(0));
     }
+    if place == Place::TxMovedMidStream {
+        let at = rng.usize_below(ops.len() + 1);
+        ops.insert(at, WOp::Move);
+    }
     let read_sizes: Vec<usize> = (0..1 + rng.usize_below(5))
         .map(|_| match rng.below(7) {
             0 => 0,
@@ -357,7 +398,7 @@ pub fn run_one(run: u64, seed: u64) -> RunOut {
             let (net, a, b, sched) = connect_rch_hetero::<IoShip, (), (), IoShip>(cfg_a.clone(), cfg_b.clone(), netcfg.clone(), &mut rng).await?;
             let RchEnd { tx: mut ctx, rx: rxa, conn: ca } = a;
             let RchEnd { tx: txb, rx: mut crx, conn: cb } = b;
-            let ship = if place == Place::RxMoved { IoShip::Rx(rx.take().unwrap()) } else { IoShip::Tx(tx.take().unwrap()) };
+            let ship = if place == Place::RxMoved || place == Place::TxMovedMidStream { IoShip::Rx(rx.take().unwrap()) } else { IoShip::Tx(tx.take().unwrap()) };
             match ship_half(&mut ctx, &mut crx, ship).await {
                 Ok(IoShip::Tx(t)) => tx = Some(t),
                 Ok(IoShip::Rx(r)) => rx = Some(r),
@@ -388,6 +429,15 @@ pub fn run_one(run: u64, seed: u64) -> RunOut {
             nets.push(net);
             keep.push(Box::new((ctx, rxa, ca, txb, crx, cb, sched)));
         }
+        let mut mover: Option<Mover> = None;
+        if place == Place::TxMovedMidStream {
+            let (net, a, b, sched) = connect_rch_hetero::<IoShip, (), (), IoShip>(cfg_c.clone(), cfg_d.clone(), netcfg2.clone(), &mut rng).await?;
+            let RchEnd { tx: ctx, rx: rxa, conn: ca } = a;
+            let RchEnd { tx: txb, rx: crx, conn: cb } = b;
+            mover = Some((ctx, crx));
+            nets.push(net);
+            keep.push(Box::new((rxa, ca, txb, cb, sched)));
+        }
         if let Some((kind, ab, after, which)) = cut {
             let net = &nets[which % nets.len()];
             let (pa, pb) = net.put_counts();
@@ -396,7 +446,7 @@ pub fn run_one(run: u64, seed: u64) -> RunOut {
         if std::env::var("HARNESS_DEBUG").is_ok() {
             eprintln!("c18: halves placed; plan {replay}");
         }
-        let wt = crate::sched::spawn(writer(tx.take().unwrap(), data.clone(), planned, ops.clone(), end, sized.then_some(total), wout.clone()));
+        let wt = crate::sched::spawn(writer(tx.take().unwrap(), data.clone(), planned, ops.clone(), end, sized.then_some(total), wout.clone(), mover));
         let rt = crate::sched::spawn(reader(rx.take().unwrap(), read_sizes.clone(), read_cancel, rng.fork(5), rout.clone()));
         for _ in 0..400 {
             settle().await;
@@ -418,6 +468,11 @@ pub fn run_one(run: u64, seed: u64) -> RunOut {
         if r.got.len() > w.accepted || r.got[..] != data[..r.got.len().min(data.len())] {
             let at = r.got.iter().zip(data.iter()).position(|(a, b)| a != b);
             bad.push(("C18:bytes-differ".into(), format!("the reader obtained {} bytes, the writer's accepted {} bytes; first difference at offset {at:?}", r.got.len(), w.accepted)));
+        }
+        if let Some(e) = &w.move_err {
+            if !cut_fired {
+                bad.push(("C18:half-cannot-be-moved".into(), format!("sending the sender on after {} flushed bytes failed: {e}", w.flushed)));
+            }
         }
         // ---- sized: nothing beyond the size is accepted ----
         if let Some(x) = &w.overlong_accepted {
@@ -494,6 +549,10 @@ pub fn run_one(run: u64, seed: u64) -> RunOut {
         out.count("reader_errors", r.err.is_some() as u64);
         out.count("connection_cuts_fired", cut_fired as u64);
         out.item("placements", format!("{place:?}/{}", if sized { "sized" } else { "unsized" }));
+        if let Some(at) = w.moved_at {
+            out.count("senders_moved_mid_stream", 1);
+            out.count("senders_moved_after_some_bytes", (at > 0) as u64);
+        }
         out.item("writer_endings", format!("{end:?}/{}", if planned < total { "short" } else { "full" }));
         if let Some(e) = &r.err {
             out.item("reader_error_kinds", e.split(' ').next().unwrap_or("").to_string());
